@@ -96,7 +96,13 @@ func (r *recorder) callSx(status int, panicked bool) string {
 // serve runs the real handler on a REPORT request.
 func serve(req *http.Request) (call string) {
 	rec := &recorder{}
-	h := &caldav.Handler{Backend: rec}
+	return serveWith(&caldav.Handler{Backend: rec}, rec, req)
+}
+
+// serveWith runs one request through an existing handler value whose backend
+// is rec (emptied first): consecutive requests of a sequence share the handler.
+func serveWith(h *caldav.Handler, rec *recorder, req *http.Request) (call string) {
+	*rec = recorder{}
 	w := httptest.NewRecorder()
 	panicked := false
 	func() {
@@ -386,77 +392,196 @@ func (c *captureClient) Do(req *http.Request) (*http.Response, error) {
 }
 
 func execClient(path string, r request) string {
-	in := hx.L("client", hx.S(path), requestSx(r))
+	return execClientCalls(r, []string{path})[0]
+}
+
+// valueSx renders the caldav value a call was given, as it is NOW.
+func valueSx(q *caldav.CalendarQuery, mg *caldav.CalendarMultiGet) string {
+	if mg != nil {
+		return requestSx(request{multiget: true, paths: mg.Paths, cr: fromCr(mg.CompRequest)})
+	}
+	return requestSx(request{cr: fromCr(q.CompRequest), cf: fromCf(q.CompFilter)})
+}
+
+// execClientCalls passes ONE request value (one *CalendarQuery or
+// *CalendarMultiGet, built once) to consecutive calls of ONE client on the
+// given paths and returns one case line per call.  The input of every line is
+// the value as the caller built it, plus the paths of the earlier calls
+// ("after"): the model is a function of the call's own inputs.  After each
+// call the value is compared with what it was before the first one.
+func execClientCalls(r request, paths []string) []string {
+	return execClientCallsOn(r, paths, nil, nil)
+}
+
+func execClientCallsOn(r request, paths []string, q *caldav.CalendarQuery, mg *caldav.CalendarMultiGet) []string {
 	cc := &captureClient{}
 	cl, err := caldav.NewClient(cc, "http://caldav.example/")
-	if err != nil {
-		return in + " " + hx.L("obs", "(hf)", "(hp)", "(client-setup-failed)", "(none)")
+	if q == nil && mg == nil {
+		if r.multiget {
+			mg = &caldav.CalendarMultiGet{Paths: r.paths, CompRequest: toCr(r.cr)}
+		} else {
+			q = &caldav.CalendarQuery{CompRequest: toCr(r.cr), CompFilter: toCf(r.cf)}
+		}
 	}
-	clientPanic := false
-	func() {
-		defer func() {
-			if e := recover(); e != nil {
-				clientPanic = true
+	orig := requestSx(r)
+	var lines []string
+	for i, path := range paths {
+		args := []string{"client", hx.S(path), orig}
+		if i > 0 {
+			after := []string{"after"}
+			for _, p := range paths[:i] {
+				after = append(after, hx.S(p))
+			}
+			args = append(args, hx.L(after...))
+		}
+		in := hx.L(args...)
+		if err != nil {
+			lines = append(lines, in+" "+hx.L("obs", "(hf)", "(hp)", "(client-setup-failed)", "(none)"))
+			continue
+		}
+		*cc = captureClient{}
+		clientPanic := false
+		func() {
+			defer func() {
+				if e := recover(); e != nil {
+					clientPanic = true
+				}
+			}()
+			if r.multiget {
+				_, _ = cl.MultiGetCalendar(context.Background(), path, mg)
+			} else {
+				_, _ = cl.QueryCalendar(context.Background(), path, q)
 			}
 		}()
+		tb := newTables()
 		if r.multiget {
-			_, _ = cl.MultiGetCalendar(context.Background(), path, &caldav.CalendarMultiGet{Paths: r.paths, CompRequest: toCr(r.cr)})
-		} else {
-			_, _ = cl.QueryCalendar(context.Background(), path, &caldav.CalendarQuery{CompRequest: toCr(r.cr), CompFilter: toCf(r.cf)})
+			ps := r.paths
+			if len(ps) == 0 {
+				ps = []string{path}
+			}
+			for _, p := range ps {
+				tb.addFmt(p, (&url.URL{Path: p}).String())
+			}
 		}
-	}()
-	tb := newTables()
-	if r.multiget {
-		ps := r.paths
-		if len(ps) == 0 {
-			ps = []string{path}
+		body := "(no-request-sent)"
+		switch {
+		case clientPanic:
+			body = "(client-panic)"
+		case cc.sent != 1:
+			body = hx.L("requests-sent", hx.I(int64(cc.sent)))
+		default:
+			if err := strictCheck(cc.body); err != nil {
+				body = hx.L("not-strict-xml", hx.S(err.Error()))
+			} else if t, err := tokenize(cc.body); err != nil {
+				body = hx.L("not-tokenizable", hx.S(err.Error()))
+			} else {
+				tb.addDocHrefs(t)
+				body = t.sx()
+			}
 		}
-		for _, p := range ps {
-			tb.addFmt(p, (&url.URL{Path: p}).String())
+		hf, hp := tb.sx()
+		call := cc.call
+		if call == "" {
+			call = "(none)"
 		}
+		obs := []string{"obs", hf, hp, body, call}
+		if valueSx(q, mg) != orig {
+			obs = append(obs, "(mod)")
+		}
+		lines = append(lines, in+" "+hx.L(obs...))
 	}
-	body := "(no-request-sent)"
-	switch {
-	case clientPanic:
-		body = "(client-panic)"
-	case cc.sent != 1:
-		body = hx.L("requests-sent", hx.I(int64(cc.sent)))
-	default:
-		if err := strictCheck(cc.body); err != nil {
-			body = hx.L("not-strict-xml", hx.S(err.Error()))
-		} else if t, err := tokenize(cc.body); err != nil {
-			body = hx.L("not-tokenizable", hx.S(err.Error()))
-		} else {
-			tb.addDocHrefs(t)
-			body = t.sx()
-		}
-	}
-	hf, hp := tb.sx()
-	call := cc.call
-	if call == "" {
-		call = "(none)"
-	}
-	return in + " " + hx.L("obs", hf, hp, body, call)
+	return lines
 }
 
 // ---- stream (b): the server
 
+type serverReq struct {
+	path  string
+	reqSx string
+	doc   []byte
+	pairs [][2]string
+}
+
 func execServer(path string, reqSx string, doc []byte, fmtPairs [][2]string) string {
-	in := hx.L("server", hx.S(path), reqSx, hx.S(string(doc)))
-	tb := newTables()
-	for _, p := range fmtPairs {
-		tb.addFmt(p[0], p[1])
+	return execServerSeq([]serverReq{{path, reqSx, doc, fmtPairs}})[0]
+}
+
+// execServerSeq serves consecutive REPORT requests with ONE caldav.Handler
+// value and returns one case line per request; the input of a later line
+// names the requests served before it ("after").
+func execServerSeq(reqs []serverReq) []string {
+	rec := &recorder{}
+	h := &caldav.Handler{Backend: rec}
+	var lines []string
+	for i, rq := range reqs {
+		args := []string{"server", hx.S(rq.path), rq.reqSx, hx.S(string(rq.doc))}
+		if i > 0 {
+			after := []string{"after"}
+			for _, p := range reqs[:i] {
+				after = append(after, hx.L(hx.S(p.path), hx.S(string(p.doc))))
+			}
+			args = append(args, hx.L(after...))
+		}
+		in := hx.L(args...)
+		tb := newTables()
+		for _, p := range rq.pairs {
+			tb.addFmt(p[0], p[1])
+		}
+		tree := "(not-tokenizable)"
+		if t, err := tokenize(rq.doc); err == nil {
+			tb.addDocHrefs(t)
+			tree = t.sx()
+		}
+		target := (&url.URL{Path: rq.path}).String()
+		req := httptest.NewRequest("REPORT", target, bytes.NewReader(rq.doc))
+		req.Header.Set("Content-Type", "application/xml; charset=utf-8")
+		req.Header.Set("Depth", "1")
+		call := serveWith(h, rec, req)
+		hf, hp := tb.sx()
+		lines = append(lines, in+" "+hx.L("obs", hf, hp, tree, call))
 	}
-	tree := "(not-tokenizable)"
-	if t, err := tokenize(doc); err == nil {
-		tb.addDocHrefs(t)
-		tree = t.sx()
+	return lines
+}
+
+// execShared: two request values that SHARE their slices and pointers (the
+// second is a shallow copy of the first with some fields replaced, its slices
+// alias the first's backing arrays with spare capacity), passed alternately to
+// consecutive calls of one client.
+func execShared(r1, r2 request, paths []string) []string {
+	var lines []string
+	if r1.multiget {
+		m1 := &caldav.CalendarMultiGet{Paths: append(make([]string, 0, 8), r1.paths...), CompRequest: toCr(r1.cr)}
+		m2 := &caldav.CalendarMultiGet{Paths: append(m1.Paths[:0:len(m1.Paths)], r2.paths...), CompRequest: toCr(r2.cr)}
+		// share what can be shared without changing either value
+		if len(m1.CompRequest.Props) == 0 {
+			m1.CompRequest.Props = make([]string, 0, 4)
+		}
+		if m2.CompRequest.Expand == nil && m1.CompRequest.Expand != nil && r2.cr.expand != nil {
+			m2.CompRequest.Expand = m1.CompRequest.Expand
+		}
+		for i, p := range paths {
+			if i%2 == 0 {
+				lines = append(lines, execClientCallsOn(r1, []string{p}, nil, m1)...)
+			} else {
+				lines = append(lines, execClientCallsOn(r2, []string{p}, nil, m2)...)
+			}
+		}
+		return lines
 	}
-	target := (&url.URL{Path: path}).String()
-	req := httptest.NewRequest("REPORT", target, bytes.NewReader(doc))
-	req.Header.Set("Content-Type", "application/xml; charset=utf-8")
-	req.Header.Set("Depth", "1")
-	call := serve(req)
-	hf, hp := tb.sx()
-	return in + " " + hx.L("obs", hf, hp, tree, call)
+	q1 := &caldav.CalendarQuery{CompRequest: toCr(r1.cr), CompFilter: toCf(r1.cf)}
+	q1.CompFilter.Comps = append(make([]caldav.CompFilter, 0, 8), q1.CompFilter.Comps...)
+	q1.CompFilter.Props = append(make([]caldav.PropFilter, 0, 8), q1.CompFilter.Props...)
+	q2 := &caldav.CalendarQuery{CompRequest: toCr(r2.cr), CompFilter: toCf(r2.cf)}
+	// q2's child lists live in the spare capacity behind q1's
+	n1, p1 := len(q1.CompFilter.Comps), len(q1.CompFilter.Props)
+	q2.CompFilter.Comps = append(q1.CompFilter.Comps[:n1:8][n1:], q2.CompFilter.Comps...)
+	q2.CompFilter.Props = append(q1.CompFilter.Props[:p1:8][p1:], q2.CompFilter.Props...)
+	for i, p := range paths {
+		if i%2 == 0 {
+			lines = append(lines, execClientCallsOn(r1, []string{p}, q1, nil)...)
+		} else {
+			lines = append(lines, execClientCallsOn(r2, []string{p}, q2, nil)...)
+		}
+	}
+	return lines
 }
